@@ -100,6 +100,9 @@ class ZFn:
         if key in V: return {V[key]}
         # single-def temp: evaluate its definition
         p = o["p"]
+        if p["proj"] and p["proj"][0]["k"] == "deref" and key[0] == "L":
+            # a dereferenced reference to a local (or to a field of one): continue with the referent
+            p = {"local": key[1], "proj": [{"k": "field", "i": i} for i in key[2:]]}
         if depth < 8:
             if not p["proj"]:
                 d = s.single(p["local"])
@@ -238,6 +241,18 @@ class ZFn:
                     tmp = []
                     for V in ns: tmp += assign(V, dk, s.val_call(t, V, None))
                     ns = tmp
+                # a crate helper that only returns when two of its usize arguments obey the zero rule
+                asum = s.summ.get(("asserts", fn.get("resolved") or fn.get("path")))
+                if asum:
+                    for (ia, ib) in asum:
+                        if ia < len(t["args"]) and ib < len(t["args"]):
+                            keep = []
+                            for V in ns:
+                                va = s.val_operand(t["args"][ia], V) & {"Z", "NZ"}
+                                vb = s.val_operand(t["args"][ib], V) & {"Z", "NZ"}
+                                if any((x == "Z") == (y == "Z") for x in (va or {"Z", "NZ"}) for y in (vb or {"Z", "NZ"})):
+                                    keep.append(V)
+                            ns = keep
                 # tuple-returning crate fn with a zero-rule summary: dest.0 / dest.1 correlated
                 sm = s.summ.get(fn.get("name"))
                 if sm and sm.get("pair"):
@@ -474,16 +489,67 @@ def asserting_ctors(f, ARR):
     return out
 
 
+def assert_summaries(f):
+    """crate functions with >= 2 usize parameters that can only return when a pair of them is both-zero-or-neither:
+    ("asserts", def path) -> [(arg index a, arg index b)] (0-based), computed from the callee's own body"""
+    out = {}
+    for b in f.fn_bodies:
+        if b.kind == "Closure":
+            continue
+        us = [i for i in range(1, b.arg_count + 1) if b.locals[i] == "usize"]
+        if len(us) < 2 or len(b.blocks) > 60:
+            continue
+        bd = b.d
+        Zf = ZFn(bd, {})
+        # only parameters that are never re-assigned (their local stands for the argument throughout)
+        us = [i for i in us if not Zf.defs.get(i)]
+        assigned_through_ref = set()
+        for bl in bd["blocks"]:
+            for st in bl["stmts"]:
+                if st["k"] == "assign" and st["rv"]["k"] in ("ref", "rawptr") and st["rv"].get("mut", True) and not st["rv"]["p"]["proj"]:
+                    if st["rv"]["k"] == "rawptr" or st["rv"].get("mut"):
+                        assigned_through_ref.add(st["rv"]["p"]["local"])
+        us = [i for i in us if i not in assigned_through_ref]
+        if len(us) < 2:
+            continue
+        keys = [("L", i) for i in us]
+        rets = {}
+
+        def sinks(bb, si, node, states, ks):
+            if si == "term" and node and node.get("k") == "return":
+                for V in states:
+                    rets.setdefault("r", set()).add(tuple(V[k] for k in keys))
+        try:
+            Zf.run(list(keys), [], sinks)
+        except RecursionError:
+            continue
+        seen = rets.get("r", set())
+        if not seen:
+            continue
+        good = []
+        for x in range(len(us)):
+            for y in range(x + 1, len(us)):
+                if all((v[x] == "Z") == (v[y] == "Z") for v in seen):
+                    good.append((us[x] - 1, us[y] - 1))
+        if good:
+            out[("asserts", b.id)] = good
+    return out
+
+
 def r_zero(f, serde_sinks=False):
     R = Result("R-ZERO")
     ARR = arr_table(f)
     summ = tuple_summaries(f, ARR)
+    asum = assert_summaries(f)
     n_sites = 0
     for name, sm in summ.items():
         # a dimension helper is only an obligation when its result feeds an array aggregate; that is found
         # below through the call sites.  Here: record what was computed.
         R.inst(sm["body"].ident, "summary: returned components %s satisfy the zero rule at every return: %s" % (sm["all_pairs"], sm["pairs"]), True)
     used_summaries = {k: v for k, v in summ.items() if v["pair"] is not None}
+    used_summaries.update(asum)
+    for k, v in asum.items():
+        R.inst(norm_ty(k[1]), "summary: returns only when its arguments %s are both zero or both non-zero" % v, True)
     for b in f.fn_bodies:
         if b.d.get("derived") or b.kind == "Closure":
             continue
